@@ -181,22 +181,12 @@ def go_string(s):
 
 
 def local_sites(t, acc=None):
+    """the sites of the local type leaves of a term"""
     acc = set() if acc is None else acc
     if t[0] == 'l':
         acc.add(t[1])
-    for x in t[1:]:
-        if isinstance(x, tuple):
-            if x and isinstance(x[0], str) and x[0] in ('b', 'p', 's', 'a', 'm', 'c', 'f', 'st', 'if', 'n', 'l'):
-                local_sites(x, acc)
-            else:
-                for y in x:
-                    if isinstance(y, tuple):
-                        if y and isinstance(y[0], str) and y[0] in ('b', 'p', 's', 'a', 'm', 'c', 'f', 'st', 'if', 'n', 'l'):
-                            local_sites(y, acc)
-                        else:
-                            for z in y:
-                                if isinstance(z, tuple) and z and isinstance(z[0], str):
-                                    local_sites(z, acc)
+    for x in _children(t):
+        local_sites(x, acc)
     return acc
 
 
@@ -296,13 +286,13 @@ class Gen:
 
     def struct(self, depth, comparable=False):
         rng = self.rng
-        n = rng.choice([0, 1, 1, 2, 2, 3])
+        n = rng.choice([0, 1, 1, 2, 2, 3, 3])
         fields = []
         used = set()
         names = self.field_names(n)
         for i in range(n):
             tag = rng.choice([None, None, None, 'json:"a"', 'x:"1"', "k", 'x:"2"', "é \"q\""])
-            if rng.random() < 0.25:
+            if rng.random() < 0.3:
                 et = self.named(comparable=comparable, embeddable=True, depth=depth - 1) if rng.random() < 0.8 else ('b', rng.choice(["int", "string", "byte", "uint8", "error"]))
                 if et[0] == 'n' and UNIVERSE_COMMON[et[2]][0] not in ("iface", "alias:I") and rng.random() < 0.3 and not comparable:
                     et2 = ('p', et)
@@ -328,8 +318,14 @@ class Gen:
         names = sorted(rng.sample(pool, n))
         return ('if', tuple((nm, self.sig(depth - 1)) for nm in names))
 
-    def typ(self, depth=3, comparable=False, targ=False):
+    def typ(self, depth=3, comparable=False, targ=False, force=None):
         rng = self.rng
+        if force == "struct":
+            return self.struct(max(depth, 1), comparable=comparable)
+        if force == "func":
+            return self.sig(max(depth, 1))
+        if force == "iface":
+            return self.iface(max(depth, 1))
         if depth <= 0:
             r = rng.random()
             if r < 0.55:
@@ -412,7 +408,7 @@ def context_kind(t, path):
         rest = path[d:]
         if cur[0] == 'm' and len(rest) == 1 and i == 1:
             return 'key'
-        if cur[0] == 'st' and len(rest) == 3 and cur[1][rest[1]][1]:
+        if cur[0] == 'st' and len(rest) >= 3 and cur[1][rest[1]][1]:
             return 'emb'
         if cur[0] == 'f' and len(rest) == 2 and rest[0] == 1 and cur[3] and rest[1] == len(cur[1]) - 1:
             return 'variadic'
@@ -439,21 +435,51 @@ def mutate(rng, t, gen):
     """-> (t', label) or None.  Exactly one attribute of one node changes."""
     ps = paths(t)
     rng.shuffle(ps)
+    # balance over node KINDS (not nodes): pick the kind to mutate first, so that struct / func / chan / interface
+    # attributes are hit as often as the (far more numerous) basic leaves
+    kinds = sorted(set(get_at(t, q)[0] for q in ps))
+    order = kinds[:]
+    rng.shuffle(order)
+    ps.sort(key=lambda q: order.index(get_at(t, q)[0]))
     for path in ps:
         node = get_at(t, path)
         ctx = context_kind(t, path)
         cmpc = under_comparable_constraint(t, path)
         m = mutate_node(rng, node, ctx, cmpc, gen)
         if m is not None:
-            return set_at(t, path, m[0]), m[1]
+            t2 = set_at(t, path, m[0])
+            if valid(t2):
+                return t2, m[1]
     return None
+
+
+def embedded_name(ft):
+    if ft[0] == 'p':
+        ft = ft[1]
+    return ft[2] if ft[0] == 'n' else ft[1] if ft[0] == 'b' else None
+
+
+def valid(t):
+    """field / method names are unique within every struct / interface of the term"""
+    if t[0] == 'st':
+        names = [embedded_name(f[3]) if f[1] else f[0] for f in t[1]]
+        names = [n for n in names if n != "_"]
+        if len(set(names)) != len(names) or None in names:
+            return False
+    if t[0] == 'if':
+        names = [m[0] for m in t[1]]
+        if len(set(names)) != len(names):
+            return False
+    return all(valid(x) for x in _children(t))
 
 
 def mutate_node(rng, n, ctx, cmpc, gen):
     k = n[0]
     opts = []
     if ctx == 'emb':
-        # embedded field types: only swap within embeddable names
+        # embedded field types (T or *T): only swap within embeddable names
+        if k == 'p':
+            return None
         if k == 'n' and n[2] in ALIAS_TARGET:
             return (('n', n[1], ALIAS_TARGET[n[2]], n[3]), "embedded-name:alias")
         if k == 'n' and n[2] in ALIAS_TARGET.values():
@@ -500,7 +526,9 @@ def mutate_node(rng, n, ctx, cmpc, gen):
         if rs:
             opts.append((('f', ps_, rs[:-1], v), "arity"))
         opts.append((('f', ps_, rs + (('b', 'error'),), v), "arity"))
-        return rng.choice(opts)
+        labels = sorted(set(o[1] for o in opts))
+        lab = rng.choice(labels)
+        return rng.choice([o for o in opts if o[1] == lab])
     if k == 'st':
         fs = n[1]
         if not fs:
@@ -523,7 +551,9 @@ def mutate_node(rng, n, ctx, cmpc, gen):
         if len(fs) >= 2 and fs[0] != fs[1]:
             opts.append((('st', (fs[1], fs[0]) + fs[2:]), "field-order"))
         opts.append((('st', fs[:-1]), "field-count"))
-        return rng.choice(opts)
+        labels = sorted(set(o[1] for o in opts))
+        lab = rng.choice(labels)
+        return rng.choice([o for o in opts if o[1] == lab])
     if k == 'if':
         ms = n[1]
         if not ms:
